@@ -417,6 +417,12 @@ pub fn run(ctx: &Ctx) -> Report {
         }
     });
     rep.merge(r);
+    // ---- backends that go on after a refused writer call, abandon a row, report an error, or let the
+    //      writer go out of scope in mid-row (props/recover.rs): whenever the calls report success, what
+    //      the client reassembles are the messages those calls denoted - no bytes of an abandoned row
+    //      glued to the next message
+    rep.merge(super::recover::group(ctx, "C04", super::recover::Clause::Shape, None, 1000, 20_000));
+
     // ---- reassembly as a client does it: a client takes packets in sequence-id order and stops at the
     //      first one that is out of sync, so a reply of many packets only yields its messages if the
     //      ids run on (mod 256) through the whole reply. (Where a reply's ids *start* is C05's clause.)
